@@ -45,6 +45,97 @@ pub fn fma(n: u32, es: u32, kind: u8, a: u32, b: u32, c: u32) -> (u32, bool) {
     (r, inex || (v.is_zero() && !p.is_zero()))
 }
 
+/// Branch-light decode of a positive, non-zero posit pattern `b` (< 2^(n-1), n <= 33): value = m * 2^e. Independent of
+/// `vp_oracle::decode` (count-leading-zeros instead of a bit loop); `fdec_selftest` compares the two.
+#[inline]
+pub fn fdec(n: u32, es: u32, b: u64) -> (u64, i32) {
+    let bl = n - 1; // body length
+    let body = b << (64 - bl);
+    let r0 = body >> 63;
+    let run = (if r0 == 1 { (!body).leading_zeros() } else { body.leading_zeros() }).min(bl);
+    let k: i32 = if r0 == 1 { run as i32 - 1 } else { -(run as i32) };
+    let used = (run + 1).min(bl);
+    let rest = if used >= 64 { 0 } else { body << used };
+    let rest_len = bl - used;
+    let ef = if es == 0 { 0 } else { (rest >> (64 - es)) as i32 };
+    let nf = rest_len.saturating_sub(es);
+    let frac = if nf == 0 { 0 } else { (rest << es) >> (64 - nf) };
+    (((1u64 << nf) | frac), k * (1 << es) + ef - nf as i32)
+}
+
+/// compares m1 * 2^e1 with m2 * 2^e2; None when the magnitudes are too far apart to align in 128 bits
+#[inline]
+fn cmp_scaled(m1: u128, e1: i32, m2: u128, e2: i32) -> Option<Ordering> {
+    let d = e1 - e2;
+    if d >= 0 {
+        if d as u32 >= m1.leading_zeros() {
+            return None;
+        }
+        Some((m1 << d).cmp(&m2))
+    } else {
+        if (-d) as u32 >= m2.leading_zeros() {
+            return None;
+        }
+        Some(m1.cmp(&(m2 << -d)))
+    }
+}
+
+/// Fast acceptance test for a square root: `g` is the correctly rounded sqrt(a) iff lo^2 < a < hi^2 where lo, hi
+/// are the rounding boundaries below and above g (the (n+1)-bit posits 2g-1 and 2g+1). Returns Some(inexact) when
+/// g is *proved* correct this way; None when it is not (wrong, a boundary case, a special value): the caller then
+/// falls back to the full reference, which also supplies the expected value. Exact integer arithmetic only.
+#[inline]
+pub fn sqrt_verify(n: u32, es: u32, a: u32, g: u32) -> Option<bool> {
+    let top = (1u32 << (n - 1)) - 1;
+    if a == 0 || a > top || g < 2 || g >= top - 1 {
+        return None;
+    }
+    let (mx, ex) = fdec(n, es, a as u64);
+    let (ml, el) = fdec(n + 1, es, 2 * g as u64 - 1);
+    let (mh, eh) = fdec(n + 1, es, 2 * g as u64 + 1);
+    let (mr, er) = fdec(n, es, g as u64);
+    let sq = |m: u64| (m as u128) * (m as u128);
+    if cmp_scaled(sq(ml), 2 * el, mx as u128, ex)? == Ordering::Less && cmp_scaled(mx as u128, ex, sq(mh), 2 * eh)? == Ordering::Less {
+        Some(cmp_scaled(sq(mr), 2 * er, mx as u128, ex)? != Ordering::Equal)
+    } else {
+        None
+    }
+}
+
+/// fdec against the reference decode: every P16E1 / 17-bit midpoint pattern, and a stride over 32/33-bit patterns for es = 1, 2, 0
+pub fn fdec_selftest() {
+    static ONCE: std::sync::Once = std::sync::Once::new();
+    ONCE.call_once(fdec_selftest_run);
+}
+
+fn fdec_selftest_run() {
+    let chk = |n: u32, es: u32, b: u64| {
+        let x = o::decode64(n, es, b).unwrap();
+        let (m, e) = fdec(n, es, b);
+        let tz = x.m.trailing_zeros().min((m as u128).trailing_zeros());
+        assert!(!x.neg && !x.sticky);
+        // same value: compare after aligning exponents
+        let (m1, e1, m2, e2) = (x.m >> tz, x.e + tz as i32, (m as u128) >> tz, e + tz as i32);
+        assert!(cmp_scaled(m1, e1, m2, e2) == Some(Ordering::Equal), "fdec mismatch n={n} es={es} b={b:#x}");
+    };
+    for es in 0..3 {
+        for n in [3u32, 8, 16, 17, 24] {
+            for b in 1..(1u64 << (n - 1)).min(1 << 16) {
+                chk(n, es, b);
+            }
+        }
+        for n in [31u32, 32, 33] {
+            let top = 1u64 << (n - 1);
+            let mut b = 1u64;
+            while b < top {
+                chk(n, es, b);
+                chk(n, es, top - b);
+                b += 1 + b / 1021; // dense near the ends, geometric in between
+            }
+        }
+    }
+}
+
 pub fn sqrt(n: u32, es: u32, a: u32) -> (u32, bool) {
     match o::decode(n, es, a) {
         None => (nar(n), true),
